@@ -129,6 +129,15 @@ def doc_locus(doc, path):
 # ------------------------------------------------------------------ parallel map
 def _init_worker():
     warnings.simplefilter("ignore")
+    try:
+        # a shard that asks the library for something absurd (a dense view over 2**63 sparse indexes) gets a MemoryError
+        # it can handle, not the kernel's OOM killer taking the whole run down
+        import resource
+
+        lim = int(os.environ.get("HGMC_SHARD_MEM_GB", "8")) << 30
+        resource.setrlimit(resource.RLIMIT_AS, (lim, lim))
+    except Exception:
+        pass
     import numpy as np
 
     np.seterr(all="ignore")
